@@ -1,5 +1,6 @@
 import FsDb.Proofs.Refine
 import FsDb.Proofs.SpecInv
+import FsDb.Proofs.SpecShift
 /-!
 # C09 — Garbage collection and cleanup never change what anyone can read
 -/
@@ -77,6 +78,23 @@ theorem C09_horizon_not_version {c : Sys} {s : State} (h : R c s) (k : Key) :
       | nil => rw [hreg] at hh; cases hh
       | cons a rs => rw [hreg] at hh; simp at hh; subst hh; simp
     exact h.inv.beginNotVer tx htx k v hva
+
+theorem plain_eq_core (op : Op) : plainOp op = op.core := by cases op <;> rfl
+
+/-- **Invisible for ever.**  Take any history and insert collector passes and worker-pool runs at
+    any positions: every other operation answers exactly what it answers in the history without
+    them.  On the specification (which only observes the order of stamps: `Shift`) … -/
+theorem C09_background_erasure_spec (ops : List Op) (hops : ∀ op ∈ ops, op.core = true) :
+    keepFg ops (Spec.run {} ops).2 = (Spec.run {} (ops.filter (fun o => !isBg o))).2 :=
+  erase_bg (Shift.refl {}) SInv.init OwnLe.init ops (fun op h => (plain_eq_core op).trans (hops op h))
+
+/-- … and on the concrete model (version lists, all-store, collector, deletion queue), through the
+    refinement. -/
+theorem C09_background_erasure (ops : List Op) (hops : ∀ op ∈ ops, op.core = true) :
+    keepFg ops (({} : Sys).run ops).2 = (({} : Sys).run (ops.filter (fun o => !isBg o))).2 := by
+  rw [Refine.run_init ops hops,
+      Refine.run_init (ops.filter (fun o => !isBg o)) (fun op h => hops op (List.mem_filter.mp h).1)]
+  exact C09_background_erasure_spec ops hops
 
 /-- non-vacuity: a snapshot reader keeps its version across two collector passes (on the
     specification by evaluation; the concrete model answers the same by `C09_refinement_with_gc`) -/
